@@ -43,5 +43,15 @@ claim(
     "`aliases` entries after deletion are the source's own FIXME.",
     TB,
 )
+claim(
+    "C10",
+    "finite-domain abstract evaluation of the rule set's AST (own evaluator, no griffe code runs) into a decision table over abstract "
+    "signatures (name x kind x default atom), compared with a reference table derived from CPython's binder on synthesised signatures",
+    "The decision table of the parameter-breakage rule set is total over all abstract signature pairs with up to one (quick) / two "
+    "(thorough, 37k pairs) parameters: silence on identity, soundness of every yield, always-reported changes, and completeness against "
+    "the calling convention (every call shape up to arity+1 with every keyword subset). Any logically equivalent rewrite of the conditions "
+    "passes; any changed row is the witness. Interplay of three or more parameters and expression-valued defaults are outside the domain.",
+    TB + "; CPython's own function-call binder is the reference for 'binds'; variadics carry the marker defaults griffe's agents store",
+)
 for _p in [f"C{n:02d}" for n in range(1, 20) if f"C{n:02d}" not in CLAIMED]:
     NOT_YET[_p] = "check under construction in this round (static rules designed in DESIGN.md section 3; not yet registered)"
